@@ -238,4 +238,21 @@ PROPS = {
                          "atomicity of single operations in Model.Conc is a modelling assumption"],
         "assumptions": ["the Go memory model, compiler reorderings and runtime are outside the model: data races as such are judged by the race detector only"],
     },
+    "C15": {
+        "kind": "c15",
+        "module": "Props.C15",
+        "namespace": "Jl.C15",
+        "rule": ("600 (thorough: 20000) interleavings of 2-40 operations — CreateRowEmpty, CreateRow from map / slice / JSON text / an existing "
+                 "row, UnmarshalJSON into a live row (accepted, rejected by the template, syntactically invalid, duplicate keys), Set and "
+                 "ImportAtKey on a live row (declared, undeclared, empty keys; convertible and unconvertible values), Export of a live row "
+                 "through an exporter of the template, CloneRow of a live row, streaming one line — over templates with numeric(int), "
+                 "binary([]byte), string, optionally a declared sub-row and a random subset of the 9 formats with raw types. After EVERY "
+                 "step the product of the template (a fresh CreateRowEmpty) and every live row are snapshotted (format, raw type and raw "
+                 "value of every cell) and compared with the value-level model; the oracle checks on the implementation's own snapshots "
+                 "that nothing but the operated root changed. distinct = distinct (template, history); non-trivial = >= 3 operations"),
+        "trusted_base": [KERNEL, CORR, "lean/Model/Alias.lean: the allocation / in-place-mutation behaviour is transcribed by hand from template.go, row.go, value.go (Gen.Sites lists the assignments through receivers it is based on)",
+                         "lean/Model/Template.lean, Value.lean (value-level models; correspondence)"],
+        "assumptions": ["handing one row's live Value cell to another row's SetValue / ImportAtKey shares that cell by construction of the API (excluded, DESIGN.md §10)",
+                        "sharing below the top level (a nested row reached through two parents) is outside the statement"],
+    },
 }
